@@ -351,6 +351,95 @@ def translate(root: Path):
     return render(data), info, problems
 
 
+# ---------------------------------------------------------------------------------------------------------------------
+# `_get_class(provenance)` of util/deserialise.py -> Gen/C10GetClass.lean
+# ---------------------------------------------------------------------------------------------------------------------
+GC_HEADER = """/- GENERATED by translator/c10_registry2lean.py from util/deserialise.py `_get_class` on every run -- do not edit.
+   Statements in source order; the result is (the string handed to import_module, the attribute name handed to getattr);
+   a failing `assert` is `.error "AssertionError"`. -/
+import CogentModel.Model.GetClass
+namespace CogentModel.Gen.C10GetClass
+open CogentModel.Registry
+"""
+
+
+def _gc_int(e, ints):
+    if isinstance(e, ast.Constant) and isinstance(e.value, int) and not isinstance(e.value, bool):
+        return f"({e.value})" if e.value < 0 else str(e.value)
+    if isinstance(e, ast.Name) and e.id in ints:
+        return e.id
+    if isinstance(e, ast.BinOp) and isinstance(e.op, (ast.Add, ast.Sub)):
+        return f"({_gc_int(e.left, ints)} {'+' if isinstance(e.op, ast.Add) else '-'} {_gc_int(e.right, ints)})"
+    raise TranslationError(f"_get_class: unsupported integer expression {ast.unparse(e)!r}")
+
+
+def _gc_str(e, strs, ints):
+    if isinstance(e, ast.Name) and e.id in strs:
+        return e.id
+    if isinstance(e, ast.Constant) and isinstance(e.value, str):
+        return "(" + _chars(e.value) + " : Str)"
+    if isinstance(e, ast.Subscript) and isinstance(e.slice, ast.Slice) and e.slice.step is None and isinstance(e.value, ast.Name) and e.value.id in strs:
+        lo, hi = e.slice.lower, e.slice.upper
+        if lo is not None and hi is None:
+            return f"(sliceFrom {e.value.id} {_gc_int(lo, ints)})"
+        if lo is None and hi is not None:
+            return f"(sliceTo {e.value.id} {_gc_int(hi, ints)})"
+    if isinstance(e, ast.IfExp):
+        t = e.test
+        if isinstance(t, ast.Compare) and len(t.ops) == 1 and isinstance(t.ops[0], ast.In):
+            return f"(if isInfix {_gc_str(t.left, strs, ints)} {_gc_str(t.comparators[0], strs, ints)} then {_gc_str(e.body, strs, ints)} else {_gc_str(e.orelse, strs, ints)})"
+    raise TranslationError(f"_get_class: unsupported string expression {ast.unparse(e)!r}")
+
+
+def translate_get_class(root: Path):
+    """returns (lean text or None, problems)"""
+    tree = ast.parse((Path(root) / "util" / "deserialise.py").read_text())
+    fn = next((n for n in tree.body if isinstance(n, ast.FunctionDef) and n.name == "_get_class"), None)
+    if fn is None or len(fn.args.args) != 1:
+        return None, ["_get_class(provenance) not found"]
+    arg = fn.args.args[0].arg
+    strs, ints, lines = {arg}, set(), []
+    module_expr = attr_expr = mod_var = None
+    try:
+        for st in fn.body:
+            if isinstance(st, ast.Expr) and isinstance(st.value, ast.Constant):
+                continue
+            if isinstance(st, ast.Assert):
+                t = st.test
+                ops = {ast.Gt: ">", ast.GtE: "≥", ast.Lt: "<", ast.LtE: "≤"}
+                if not (isinstance(t, ast.Compare) and len(t.ops) == 1 and type(t.ops[0]) in ops):
+                    raise TranslationError(f"_get_class: unsupported assert {ast.unparse(t)!r}")
+                lines.append(f"  if !(decide ({_gc_int(t.left, ints)} {ops[type(t.ops[0])]} {_gc_int(t.comparators[0], ints)})) then .error \"AssertionError\" else")
+                continue
+            if isinstance(st, ast.Return):
+                if not (isinstance(st.value, ast.Name) and st.value.id == attr_expr):
+                    raise TranslationError("_get_class: does not return the fetched attribute")
+                break
+            if not (isinstance(st, ast.Assign) and len(st.targets) == 1 and isinstance(st.targets[0], ast.Name)):
+                raise TranslationError(f"_get_class: unsupported statement {ast.unparse(st)!r}")
+            name, v = st.targets[0].id, st.value
+            if isinstance(v, ast.Call) and isinstance(v.func, ast.Attribute) and v.func.attr == "rfind" and isinstance(v.func.value, ast.Name) and v.func.value.id in strs \
+                    and len(v.args) == 1 and isinstance(v.args[0], ast.Constant) and isinstance(v.args[0].value, str) and len(v.args[0].value) == 1:
+                lines.append(f"  let {name} : Int := rfindChar {_chars(v.args[0].value)[1:-1]} {v.func.value.id}")
+                ints.add(name)
+            elif isinstance(v, ast.Call) and isinstance(v.func, ast.Name) and v.func.id == "import_module" and len(v.args) == 1:
+                lines.append(f"  let module_arg : Str := {_gc_str(v.args[0], strs, ints)}")
+                module_expr, mod_var = "module_arg", name
+            elif isinstance(v, ast.Call) and isinstance(v.func, ast.Name) and v.func.id == "getattr" and len(v.args) == 2 and isinstance(v.args[0], ast.Name) and v.args[0].id == mod_var:
+                lines.append(f"  let attr_arg : Str := {_gc_str(v.args[1], strs, ints)}")
+                attr_expr = name
+            else:
+                lines.append(f"  let {name} : Str := {_gc_str(v, strs, ints)}")
+                strs.add(name)
+    except TranslationError as e:
+        return None, [str(e)]
+    if module_expr is None or attr_expr is None:
+        return None, ["_get_class: import_module(...) / getattr(mod, ...) not found"]
+    body = "\n".join(lines)
+    text = GC_HEADER + f"\n/-- `_get_class`: (argument of import_module, argument of getattr) -/\ndef get_class ({arg} : Str) : Except String (Str × Str) :=\n{body}\n  .ok (module_arg, attr_arg)\n\nend CogentModel.Gen.C10GetClass\n"
+    return text, []
+
+
 def write_if_changed(path: Path, text: str) -> bool:
     if path.exists() and path.read_text() == text:
         return False
